@@ -400,7 +400,7 @@ def explore_deletion(ctx, shape, tier, report):
             edge = w.edge(src=src, src_entity=short, label=w.atom(tag + '_label', None, 'str'), dest=dest, cdate=cdate, author=author)
             edges_v.append(Cell(w.struct('EdgeDelete', edge=edge, src_name=name, room_id=w.opt(room), date=date)))
             items.append(dict(kind='edge', name=name, short=short, room=room, author=author, date=date, src=src, dest=dest, cdate=cdate))
-        dq = w.struct('DeletionQuery', nodes=VecV(nodes_v), node_log=VecV(), updated_nodes=VecV(), edges=VecV(edges_v), edge_log=VecV())
+        dq = w.deletion_query(nodes=VecV(nodes_v), node_log=VecV(), updated_nodes=VecV(), edges=VecV(edges_v), edge_log=VecV())
         info = dict(part='deletion', rooms=rooms_ev, caller=caller, items=items)
         try:
             res = ctx.exec_fn(vd, [Ref(Cell(ra)), Ref(Cell(dq), True)])
